@@ -41,7 +41,8 @@ VARIABLES sc, ph, annSeen, fnAnnSeen, ignSeen, diags
 vars == <<sc, ph, annSeen, fnAnnSeen, ignSeen, diags>>
 
 Classes == {"sibling", "test", "xtest", "tdpath", "genpath", "genfile", "genfirst", "gentest"}
-PathSets == {{}, {"testdata"}, {"zzgen"}, {"testdata", "zzgen"}}
+PathSets == {{}, {"testdata"}, {"zzgen"}, {"testdata", "zzgen"}, {"zzgen", "zzgenerated"}, {"zzgenerated"}}
+\* zzgenerated matches no file of the scenarios; next to zzgen it is a longer entry that *contains* the shorter one
 
 Valid(s) == /\ (s.ann => s.cls \in {"sibling", "tdpath", "genpath", "genfile", "genfirst"})
             /\ (s.cls = "sibling" => TRUE)
